@@ -177,6 +177,8 @@ class World:
             from fakesnow.pandas_tools import write_pandas as fake_wp
 
             df = pd.DataFrame(op["rows"], columns=op["cols"])
+            if op.get("index") is not None:
+                df.index = op["index"]  # row labels are not data: repeated or shuffled labels must not matter
             fn = pt.write_pandas if type(pt.write_pandas).__name__ == "MagicMock" else fake_wp  # the patched entry point when inside patch()
             ok, _chunks, nrows, _ = fn(conn, df, op["table"], **({"database": op["database"], "schema": op["schema"]} if op.get("database") else {}))
             return {"ok": bool(ok), "rows": [[nrows]], "rowcount": nrows}
